@@ -260,6 +260,16 @@ fn squawks(c: &mut Ctx) {
             if let Some(v) = decode(c, &f, name) {
                 expect_str(c, &f, name, &v["squawk"], &exp, s as i64);
             }
+            if name == "squawk:BDS61" {
+                // the field next to the code (the emergency / priority state) takes all its values: a Mode A code is
+                // the four octal digits of its pulses whatever the state says
+                for em in 1..8u8 {
+                    let f = frames::df17(5, AA, &frames::me_status(1, em, id, 0));
+                    if let Some(v) = decode(c, &f, "squawk:BDS61:emergency-state") {
+                        expect_str(c, &f, "squawk:BDS61:emergency-state", &v["squawk"], &exp, ((em as i64) << 12) | s as i64);
+                    }
+                }
+            }
         }
     }
 }
